@@ -141,6 +141,8 @@ type muxSession struct {
 	pad      int
 	split    int
 	decoy    int
+	// stallGate != nil: every Write on the stream blocks (the peer does not drain its socket)
+	stallGate chan struct{}
 	trace    []string
 	cleanups []func()
 }
@@ -242,6 +244,12 @@ func (s *muxSession) start(short bool) *ev.Failure {
 			cl.resp, _ = io.ReadAll(r)
 		}
 	}()
+	if s.stallGate != nil {
+		// its write blocks with everybody else's; give it a moment to get there
+		time.Sleep(2 * time.Millisecond)
+		s.logf("start #%d op=%d short=%v (write stalled)", len(s.callers)-1, id, short)
+		return nil
+	}
 	select {
 	case <-cl.sent:
 	case <-cl.done:
@@ -383,6 +391,19 @@ func (s *muxSession) deliver(st muxStep) {
 	}
 }
 
+func (s *muxSession) resumeWrites() {
+	if s.stallGate == nil {
+		return
+	}
+	s.st.mu.Lock()
+	s.st.writeBlock = nil
+	s.st.mu.Unlock()
+	close(s.stallGate)
+	s.stallGate = nil
+	s.logf("writes resume")
+	time.Sleep(2 * time.Millisecond)
+}
+
 func (s *muxSession) await(cl *muxCaller, d time.Duration) bool {
 	select {
 	case <-cl.done:
@@ -457,6 +478,20 @@ func execMuxInner(c muxCase) *ev.Failure {
 			}
 		case "deliver":
 			s.deliver(st)
+		case "stall-writes":
+			// from now on the peer does not drain its socket: writes block (reads are unaffected)
+			if c.Transport == "adapter" && s.stallGate == nil && len(s.callers) < 9 {
+				s.stallGate = make(chan struct{})
+				s.st.mu.Lock()
+				s.st.writeBlock = s.stallGate
+				s.st.mu.Unlock()
+				s.logf("writes stall")
+				if f := s.start(false); f != nil { // a request stuck in Write
+					return f
+				}
+			}
+		case "resume-writes":
+			s.resumeWrites()
 		case "sleep":
 			time.Sleep(time.Duration(1+st.Copies) * time.Millisecond)
 		case "await":
@@ -544,6 +579,7 @@ func execMuxInner(c muxCase) *ev.Failure {
 		}
 	}
 	// ---- wind-down: release every gate, then the probe (C06) ...
+	s.resumeWrites()
 	s.ctl.releaseAll()
 	for _, cl := range s.callers {
 		cl.held = false
@@ -598,7 +634,7 @@ func (c *muxController) readerHeld() bool {
 // ---- generators
 
 func genMuxStep(t *rapid.T, controlled bool, maxCopies int, emphasis string) muxStep {
-	ops := []string{"start", "start", "deliver", "deliver", "deliver", "await", "sleep"}
+	ops := []string{"start", "start", "deliver", "deliver", "deliver", "await", "sleep", "stall-writes", "resume-writes"}
 	if controlled {
 		ops = append(ops, "hold", "release", "hold", "release")
 	}
@@ -684,6 +720,9 @@ func classifyMux(c muxCase) ev.Class {
 		}
 		if st.Op == "deliver" && st.Decoy > 0 {
 			labels = append(labels, "decoy-opid-in-other-header")
+		}
+		if st.Op == "stall-writes" && c.Transport == "adapter" {
+			labels = append(labels, "peer-stops-draining-writes")
 		}
 		if st.Op == "deliver" && st.Split > 0 && st.Split <= 4 && c.Transport == "adapter" {
 			labels = append(labels, "frame-size-prefix-split-across-reads")
